@@ -173,10 +173,12 @@ ADDED = {
            'D9: push/pop through esp use the value of esp IA-32 prescribes (addresses of the lifted templates evaluated). D10-D13: the lifted assignments of the shifts and rotates are evaluated '
            '(masked count 0 changes nothing; result/CF/OF/ZF/SF/PF on boundary operands x counts equal a reference validated against the host CPU), xchg/xadd on two parts of one '
            'register, and the cell and bit the bt family addresses for signed register offsets and immediate offsets. '
-           'D14: call/ret/retf/leave/enter under both operand sizes address the stack through the 32-bit esp and move it by the slot sizes IA-32 prescribes (lifted templates evaluated with a carry into the high half of esp).',
+           'D14: call/ret/retf/leave/enter under both operand sizes address the stack through the 32-bit esp and move it by the slot sizes IA-32 prescribes (lifted templates evaluated with a carry into the high half of esp). '
+           'D15: the count of a repeated string instruction (shared with C08.D7).',
     'C05': ' Also (D4/D5): rewrites are selected by their action; constant folding demands equal widths of associative operands only; every tab_size_int[K] lookup of the simplifier is '
            'dominated by a membership test, by an isinstance(.., ExprInt) on the value or an operand of it, or ranges over the table keys (no KeyError on 4/24/31-bit slices). '
-           'D7: the parity fold is the parity of the low byte at every width (both parity functions evaluated).',
+           'D7: the parity fold is the parity of the low byte at every width (both parity functions evaluated). '
+           'D8: copy() of every node class is a deep copy (the simplifier edits copies).',
     'C06': ' Also: operators the lifter builds with operands of different widths and evaluable operands are exempt from the operand-type check (op_size_no_check names only real operators); '
            'width-indexed tables cover every constant width; no sign test on an unsigned operand; the through-carry rotations widen their operand before shifting; left shifts bound the count; '
            'eval_ExprCompose recognises constant slice pieces (widths the lifter composes that no ExprInt can carry); memory cells are stored under the simplified address they are looked up with (D7); the division / multiplication evaluators (div, rem, idiv, irem, umul/imul hi/lo of widths 8/16/32) '
@@ -197,13 +199,16 @@ ADDED = {
            'letters) x operand shape, returns or raises ValueError; constant operand indices of __str__ are reachable only with enough operands (string-instruction operand counts and '
            'row-dependent guards evaluated); dictionary displays subscripted in the assembler have table-derived keys that are always present, or a membership test. '
            'D6: every operand fetch reads the number of bytes its mode prescribes (shared with C01.D3). '
-           'D7: arg_set_numpy_imm is evaluated on every pair of operand-size tokens (no TypeError/KeyError); D8: dict_mul, evaluated on register x constant and on chains of factors, builds no value whose size grows with the constant.',
+           'D7: arg_set_numpy_imm is evaluated on every pair of operand-size tokens (no TypeError/KeyError); D8: dict_mul, evaluated on register x constant and on chains of factors, builds no value whose size grows with the constant. '
+           'D9: decoder, undefined-form test and renderer select the same mandatory prefix from any prefix list.',
     'C12': ' Also (D2/D6): every method of the evaluator class counts as an entry point whose defaults callers omit (dict-dispatch callees resolved); sys.path / sys.modules replaced inside a '
            'function are restored in a finally. '
            'D7: no function in the API modules mutates in place a module-level table, or a local bound to one (a lifter reversing the shared register list). '
-           'D8: process-wide loggers are configured once; D9: state a token rule keeps on a shared lexer is reset per parse.',
+           'D8: process-wide loggers are configured once; D9: state a token rule keeps on a shared lexer is reset per parse. '
+           'D7 also covers the tables of a module-level instance (x86mndb): run-time methods do not change them. D10: copy() is a deep copy.',
     'C13': ' Also (D6): visit() of every expression class rebuilds the node when any child changed, segment selector of ExprMem included (shared with C15.D2). '
-           'D7: constants have one (unsigned) representation wherever they stand.',
+           'D7: constants have one (unsigned) representation wherever they stand. '
+           'D1 demands that sub-expression fields enter the ordering key through key_expr and that the per-piece key of a concatenation is complete; D8: copy() is a deep copy.',
     'C14': ' The template family includes the bounded left shift (count >= width of the result class gives 0; a bound taken from a narrower class is a violation) and the modular power '
            'pow(self.arg, e, limit) with the wider-class cast; the exact power / unbounded shift are violations (the count 2^n-1 is in range). '
            'The right shift returns 0 for a count >= width only for the unsigned classes (an arithmetic shift of a negative value saturates at -1).',
